@@ -23,7 +23,7 @@ From DD Require Import Base.PyStr Base.Value Path.PathModel Diff.Tree Diff.DiffM
   Hash.HashModel DiffIO.DiffIOModel
   Delta.DeltaModel Delta.DeltaRun Delta.DeltaGuard Delta.DeltaGood Delta.DeltaRoundtrip Delta.DeltaChain Delta.DeltaExamples
   Delta.DeltaIO Delta.DeltaIOProofs
-  Delta.DeltaChainRun Delta.DeltaChainAll Delta.DeltaIOReloc Delta.DeltaIOPre Delta.DeltaIOLocal Delta.DeltaIOPlant Delta.DeltaIOPlantEx.
+  Delta.DeltaChainRun Delta.DeltaChainAll Delta.DeltaIOReloc Delta.DeltaIOPre Delta.DeltaIOLocal Delta.DeltaIOPlant Delta.DeltaIOPlantEx Delta.DeltaIOPlantList Delta.DeltaIOPlantListEx Delta.DeltaIOLevelsB.
 
 (* the round trip, for all nested values inside the guards *)
 Theorem C01_roundtrip_partial :
@@ -336,6 +336,46 @@ Theorem C01_ignore_order_at_path_corollaries :
 Proof. exact (conj io_roundtrip_at_path apply_io_planted). Qed.
 Print Assumptions C01_ignore_order_at_path_corollaries.
 
+(* ... and below LIST levels.  There the planted item takes part in the hash matching of its level.  [lev_ok H c pairs a b p q u1 u2]
+   (Delta/DeltaIOPlantList.v): a context of dict levels (key not hidden) and of list levels at which the item hashes of the two
+   planted values occur nowhere among the siblings' hashes, differ from each other, and the pairing oracle of that level pairs
+   exactly the two ([pairs p = [(n, n)]]); every context of dict levels is one ([dict_levels_ok]).  When the oracle does NOT
+   pair them the whole item is removed and added and the result is t2 itself at that level (last part of the Example below;
+   a general statement needs AnySet-membership hypotheses with default-parameter hashes: not done). *)
+Theorem C01_ignore_order_perm_below_lists_partial :
+  forall H udiff c pairs conv bidir always ro ao (X Y : list atom),
+    (forall a b, In a (X ++ Y) -> In b (X ++ Y) -> hatom_io H c true a = hatom_io H c true b -> a = b) ->
+    NoDup X -> NoDup Y -> alias_free (X ++ Y) ->
+    (forall ty0 v v', conv ty0 v = Some v' -> type_of v' = ty0) ->
+    ro [] = [] -> thr_num c <= thr_den c ->
+  forall q t1 t2,
+    lev_ok H c pairs (VList (map VAtom X)) (VList (map VAtom Y)) [] q t1 t2 -> wf t1 = true -> wf t2 = true ->
+    let r := run_diff_io H udiff nos nos c true pairs t1 t2 in
+    exists u' zs, apply_io H conv ro ao (to_delta_io conv bidir always t1 t2 (fst r) (snd r)) t1 = (u', 0)
+                  /\ planted (VList (map VAtom X)) (VList zs) q t1 u' /\ Permutation zs (map VAtom Y).
+Proof. exact io_roundtrip_levels. Qed.
+Print Assumptions C01_ignore_order_perm_below_lists_partial.
+
+(* [lev_ok] has a boolean sufficient condition on an explicit context ([fill cx v]: the levels cx around v): the harness
+   evaluates it inside Coq on every planted pair it generates, with the recorded pairings and the correspondence's hasher,
+   and compares it with what the recorded pairings say (c01.py: case list c01iol) *)
+Theorem C01_ignore_order_lev_ok_decidable_sufficient :
+  forall H c pairs cx a b p, lev_okb H c pairs cx a b p = true -> lev_ok H c pairs a b p (cpath cx) (fill cx a) (fill cx b).
+Proof. exact lev_okb_sound. Qed.
+Print Assumptions C01_ignore_order_lev_ok_decidable_sufficient.
+
+(* satisfiable with the implementation's pairings: {'k': [0, [1,2,3,4], 'x']} -> {'k': [0, [2,1,4,7], 'x']} (hexhash separates the
+   siblings 0, 'x' from the two lists; root['k'] pairs the lists, root['k'][1] pairs the 7 with the 3): the model computes
+   {'k': [0, [1,2,7,4], 'x']}, as the implementation; with a pairing that leaves the lists unpaired the result is t2 itself *)
+Example C01_ignore_order_below_lists_guards_satisfiable :
+  lev_ok hexhash io_cfg ll_pairs (VList (xs ll_X)) (VList (ys ll_Y)) [] ll_q ll_t1 ll_t2 /\
+  ((exists u' zs, ll_result = (u', 0) /\ planted (VList (xs ll_X)) (VList zs) ll_q ll_t1 u' /\ Permutation zs (ys ll_Y)) /\
+   ll_result = (ll_ctx (VList (map VAtom [AInt 1; AInt 2; AInt 7; AInt 4])), 0)) /\
+  (let r := run_diff_io hexhash (fun _ _ => []) nos nos io_cfg true (fun _ => []) ll_t1 ll_t2 in
+   apply_io hexhash conv_none_io (fun l => l) (fun l => l) (to_delta_io conv_none_io false false ll_t1 ll_t2 (fst r) (snd r)) ll_t1 = (ll_t2, 0)).
+Proof. exact (conj ll_lev_ok (conj ll_example ll_unpaired)). Qed.
+Print Assumptions C01_ignore_order_below_lists_guards_satisfiable.
+
 (* satisfiable: {'z': 0, 'k': {'m': [1,2,3,4], 'z': None}} -> the same around [2,'a',None,7,9] with the implementation's
    pairing asked at root['k']['m']; the model computes the context around [2,'a',None,9,7] (so does the implementation) *)
 Example C01_ignore_order_at_path_guards_satisfiable :
@@ -449,6 +489,31 @@ Theorem C01_faithful_witnesses :
 Proof. exact (conj tuple_insert_raises (conj tuple_append_ok (conj negative_index_insert no_static_path_condition))). Qed.
 Print Assumptions C01_faithful_witnesses.
 End Faithful.
+
+(* ---- list / dict items of tuples are edited IN PLACE ----
+   The code mutates the object it reaches through the path: a list or dict that is an item of a tuple is edited without anything
+   being written into the tuple (([1,2],3) -> ([9,1,2],3) round-trips on the implementation).  The shared DeltaModel.upd refuses
+   every write below a tuple (block C08's proofs rest on it: "after a successful write every container above is a list or dict"),
+   so DeltaModel is not faithful there - outside [guards], which keep tuples to scalars.  Delta/DeltaInplace.v, module T, repeats
+   DeltaModel's passes verbatim over [T.upd], which puts a list child (dict child) of a tuple back when it is still a list (dict).
+   T is compared with the implementation on pairs with list / dict / set items of tuples (c01.py inplace_tuple_stream); a tuple that
+   is an item of a tuple stays outside both models.  Here: T.upd succeeds wherever upd does, with the same result; the two agree
+   when no tuple lies above the written object; witnesses - a list and a dict inside a tuple round-trip in T with 0 errors where
+   DeltaModel logs errors, a set inside a tuple still fails (2 errors, unchanged): finding F4 as it remains. *)
+From DD Require Delta.DeltaInplace Delta.DeltaInplaceProofs.
+Section Inplace.
+Import Delta.DeltaInplace Delta.DeltaInplaceProofs.
+Theorem C01_inplace_tuple_items :
+  (forall p v f r, upd v p f = Some r -> T.upd v p f = Some r) /\
+  (forall p v f, no_tuple_above v p = true -> T.upd v p f = upd v p f) /\
+  ((rt_t hatom_ex no_ops zip_cfg conv_none false false ip_l1 ip_l2 = (ip_l2, 0) /\
+    snd (rt hatom_ex no_ops zip_cfg conv_none false false ip_l1 ip_l2) <> 0) /\
+   (rt_t hatom_ex no_ops zip_cfg conv_none false false ip_d1 ip_d2 = (ip_d2, 0) /\
+    snd (rt hatom_ex no_ops zip_cfg conv_none false false ip_d1 ip_d2) <> 0) /\
+   (rt_t hatom_ex no_ops zip_cfg conv_none false false f4_t1 f4_t2 = (f4_t1, 2) /\ veqb f4_t1 f4_t2 = false)).
+Proof. exact (conj upd_refines (conj upd_same inplace_witnesses)). Qed.
+Print Assumptions C01_inplace_tuple_items.
+End Inplace.
 
 (* ---- numpy arrays "edited in place" ----
    Models: Diff/NpModel.v (the diff of numeric arrays: dtype, shape, row-major data), Delta/DeltaNp.v (the
